@@ -2,8 +2,20 @@
 # mut.sh <patch> <prop>... : apply a patch to a scratch copy of /repo (never to /repo
 # itself), run the given properties' checks against the copy, delete the copy.
 # Prints one line per property: DETECTED / MISSED / UNDECIDED.
+# The copy lives at one of 16 fixed paths (taken under a file lock): the Go build cache keys compiled
+# packages by directory, a random directory per run fills the disk with cache entries.
 patch=$(readlink -f "$1"); shift
-scratch=$(mktemp -d /tmp/mutscratch.XXXXXX)
+slot=""
+while [ -z "$slot" ]; do
+  for i in $(seq 0 15); do
+    exec {fd}>/tmp/mutscratch.slot$i.lock
+    if flock -n $fd; then slot=$i; break; fi
+    exec {fd}>&-
+  done
+  [ -z "$slot" ] && sleep 0.2
+done
+scratch=/tmp/mutscratch.slot$slot
+rm -rf "$scratch"; mkdir -p "$scratch"
 trap 'rm -rf "$scratch"' EXIT
 rsync -a --exclude .git /repo/ "$scratch/repo/"
 if ! (cd "$scratch/repo" && git apply --whitespace=nowarn "$patch" 2>/dev/null || patch -p1 -s < "$patch"); then
